@@ -31,7 +31,7 @@ int main(int argc, char** argv) {
     R.rule = "one evaluation = one real wakePotential() call for (configuration, impedance basis vector, profile basis vector) or a dense cross-check; "
              "distinct = FNV of case + returned wake; trivial = impedance bin above N/2 (must give exactly zero)";
     R.sample_every = 4000;
-    auto cfgs = configs(R.thorough());
+    auto cfgs = configs(true);
     if (R.warm) { std::set<unsigned> seen; for (auto& c : cfgs) if (seen.insert(c.N).second) { Rig r(c); r.f->wakePotential(); } return 0; }
     double worst = 0;
     for (auto& c : cfgs) {
